@@ -25,7 +25,8 @@ COMMON_TRUSTED = [
 COMMON_ASSUMPTIONS = [
     'histories are sequences of whole transactions of the service (all orders of whole transactions, not statement interleavings)',
     'job (cores, inst_coll) pairs are those the real resource-request code of _create_jobs produces: pools {250,...,16000} mcpu, job-private n1-standard-{1,2,4,8}',
-    'worker / driver messages name instances that were created; unschedule_job always reports reason "cancelled" (as the code does)',
+    'worker / driver messages name instances that were created; unschedule_job always reports reason "cancelled" (as the code does) and is only '
+    'issued for an (attempt, instance) pair read from the attempts table (both callers in canceller.py); schedule_job is never called for a pending instance',
 ]
 
 
@@ -211,6 +212,14 @@ class E1Prop(Prop):
         r = self._get(c)
         if r.failure is not None:
             ops = ops[:r.failure[0] + 1]
+            cls = r.failure[1]
+            any_failure = fails
+
+            def fails(c2):          # the witness must keep showing the SAME finding class, not drift to another one
+                if not any_failure(c2):
+                    return False
+                f2 = self._get(c2).failure
+                return f2 is not None and f2[1] == cls
         if not fails({**c, 'ops': ops}):
             return c
         ops = generic_shrink_list(ops, lambda o: fails({**c, 'ops': o}))
